@@ -525,6 +525,8 @@ Step(st0, e, alt) ==
           [] e.ev \in {"cb", "lcall"} /\ Bad(st1.invalid \/ st1.oversize, "C15_InvalidIgnored") -> Fail(st1, "C15_InvalidIgnored")
           [] e.ev = "cb" -> IF e.kind = "add" THEN [st1 EXCEPT !.added = @ \cup {e.name}]
                             ELSE IF e.kind = "rem" THEN [st1 EXCEPT !.added = @ \ {e.name}] ELSE st1
+          \* the canary question from the mDNS port: its answer has been multicast (seen on the loopback) since it was asked
+          [] e.ev = "expect_mc" -> IF Bad(e.rid \in Rids /\ st1.tx[e.rid] < e.since, "C15_CanaryAnswered") THEN Fail(st1, "C15_CanaryAnswered") ELSE st1
           [] e.ev = "expect_added" -> IF Bad(e.name \notin st1.added, "C15_CanaryAdded") THEN Fail(st1, "C15_CanaryAdded") ELSE st1
           [] e.ev \in {"lcall", "bstart", "lookup", "lookup_ret"} -> st1
           [] e.ev = "tclose"    -> IF Bad(\E x \in st1.slots : x.kind = "bye" /\ ~x.used, "C17_GoodbyesBeforeClose")
